@@ -138,7 +138,8 @@ impl Iterator for Lines {
     }
 
     fn size_hint(&self) -> (usize, Option<usize>) {
-        let remaining_bytes = self.input.len() - self.start;
+        // `start` is moved past the end of the input once the iterator is exhausted
+        let remaining_bytes = self.input.len().saturating_sub(self.start);
         (1.min(remaining_bytes), Some(remaining_bytes))
     }
 }
@@ -188,7 +189,8 @@ impl Iterator for Split {
     }
 
     fn size_hint(&self) -> (usize, Option<usize>) {
-        let remaining_bytes = self.input.len() - self.start;
+        // `start` is moved past the end of the input once the iterator is exhausted
+        let remaining_bytes = self.input.len().saturating_sub(self.start);
         (1.min(remaining_bytes), Some(remaining_bytes))
     }
 }
@@ -282,7 +284,8 @@ impl Iterator for SplitWith {
     }
 
     fn size_hint(&self) -> (usize, Option<usize>) {
-        let remaining_bytes = self.input.len() - self.start;
+        // `start` is moved past the end of the input once the iterator is exhausted
+        let remaining_bytes = self.input.len().saturating_sub(self.start);
         (1.min(remaining_bytes), Some(remaining_bytes))
     }
 }
